@@ -79,8 +79,12 @@ impl Restr {
         use routee_compass::app::compass::config::frontier_model::turn_restrictions::turn_restriction_builder::TurnRestrictionBuilder;
         use routee_compass::app::compass::config::frontier_model::vehicle_restrictions::vehicle_restriction_builder::VehicleRestrictionBuilder;
         use routee_compass_core::model::frontier::frontier_model_builder::FrontierModelBuilder;
-        let scratch = crate::world::app::Scratch::new("c04f");
-        let d = &scratch.path;
+        // one directory per thread, files overwritten from case to case (the builders read them while they build)
+        thread_local! {
+            static DIR: crate::world::app::Scratch = crate::world::app::Scratch::new("c04f");
+        }
+        let d: std::path::PathBuf = DIR.with(|s| s.path.clone());
+        let _ = std::fs::create_dir_all(&d);
         let w = |name: &str, text: String| -> Result<String, String> {
             let p = d.join(name);
             std::fs::write(&p, text).map_err(|e| format!("harness: cannot write {}: {}", name, e))?;
